@@ -1,5 +1,6 @@
 (** ValidWitness.v — C04: concrete worlds on which the tree BEFORE the repairs of fixes/C04-*.diff breaks the property
-    (each checked by computation), and the one deviation that is not repaired. *)
+    (each checked by computation), and the two deviations of the CURRENT tree that are not repaired (both pinned by
+    upstream tests): the shared import source id and the children of an import target. *)
 From Coq Require Import String Ascii List Bool Arith ZArith QArith.
 From LC Require Import Common NumDefs MathDefs ValidDefs ValidSpec.
 Import ListNotations.
@@ -50,26 +51,26 @@ Definition has_rule (r : vrule) (l : list (level * vrule)) : bool :=
 
 Lemma w_reset_chain_facts :
   validate unfixed ueq_c08 false w_reset_chain = []
-  /\ has_rule V_RESET_ORDER_UNIQUE (validate all_fixed ueq_c08 false w_reset_chain) = true.
+  /\ has_rule V_RESET_ORDER_UNIQUE (validate current_fixes ueq_c08 false w_reset_chain) = true.
 Proof. vm_compute. split; reflexivity. Qed.
 
 Lemma w_bvar_empty_ci_facts :
   validate unfixed ueq_c08 false w_bvar_empty_ci = []
-  /\ has_rule V_MATH_CI_VARIABLE_REFERENCE (validate all_fixed ueq_c08 false w_bvar_empty_ci) = true.
+  /\ has_rule V_MATH_CI_VARIABLE_REFERENCE (validate current_fixes ueq_c08 false w_bvar_empty_ci) = true.
 Proof. vm_compute. split; reflexivity. Qed.
 
 Lemma w_shared_import_facts :
   validate all_fixed ueq_c08 false w_shared_import = []
-  /\ has_rule V_XML_ID_ATTRIBUTE (validate unfixed ueq_c08 false w_shared_import) = true.
+  /\ has_rule V_XML_ID_ATTRIBUTE (validate current_fixes ueq_c08 false w_shared_import) = true.
 Proof. vm_compute. split; reflexivity. Qed.
 
 Lemma w_concat_facts :
   validate unfixed ueq_c08 false w_concat = []
-  /\ has_rule V_XML_ID_ATTRIBUTE (validate all_fixed ueq_c08 false w_concat) = true.
+  /\ has_rule V_XML_ID_ATTRIBUTE (validate current_fixes ueq_c08 false w_concat) = true.
 Proof. vm_compute. split; reflexivity. Qed.
 
 Lemma w_import_child_facts :
-  validate all_fixed ueq_c08 false w_import_child = []
+  validate current_fixes ueq_c08 false w_import_child = []
   /\ validate_component true 2 w_import_child 1 [] (mkC 21 "child" "" "" None [mk_var 22 "1bad" "second" "" []] [] [])
      = [V_VARIABLE_NAME_VALUE].
 Proof. vm_compute. split; reflexivity. Qed.
@@ -91,7 +92,7 @@ Definition w_valid : world :=
         [Comp (mkC 2 "child" "" "ce" None [mkV 21 "x" "" (Some "mV") "public" "" [mkE 11 "map1" "conn1"]] [] []) [];
          Comp (mkC 3 "imp_c" "" "" (Some (mkIS 51 "" "other.cellml" true None, "some_component")) [] [] []) []]]].
 
-Lemma w_valid_accepted : validate all_fixed ueq_c08 false w_valid = [].
+Lemma w_valid_accepted : validate current_fixes ueq_c08 false w_valid = [].
 Proof. vm_compute. reflexivity. Qed.
 
 From LC Require Import ValidLeaf ValidCompProofs ValidUnitsProofs ValidProofs.
@@ -106,5 +107,52 @@ Proof.
   - cbn. repeat constructor.
 Qed.
 
-Lemma w_valid_wf : WF all_fixed ueq_c08 w_valid.
-Proof. apply (validate_sound all_fixed ueq_c08 w_valid w_valid_repr w_valid_unresolved). exact w_valid_accepted. Qed.
+Lemma w_valid_wf : WF current_fixes ueq_c08 w_valid.
+Proof. apply (validate_sound current_fixes ueq_c08 w_valid w_valid_repr w_valid_unresolved). exact w_valid_accepted. Qed.
+
+(* ------------------------------------------------------------------ the shared import source id, on the current tree *)
+
+From LC Require Import ValidIdsProofs.
+
+(** WF looks at the repairs only through the MathML qualifier switch *)
+Lemma wf_fx_transfer : forall fx fx' ueq W, fx_math_qual fx = fx_math_qual fx' -> WF fx ueq W -> WF fx' ueq W.
+Proof. intros fx fx' ueq W E [H1 H2 H3 H4 H5 H6 H7 H8 H9]. constructor; try assumption. rewrite <- E. exact H3. Qed.
+
+Lemma w_shared_import_repr : Repr (model_at w_shared_import 0).
+Proof. split; cbn; repeat constructor; cbn; intuition discriminate. Qed.
+
+Lemma w_shared_import_unresolved : unresolved_world w_shared_import.
+Proof.
+  split.
+  - intros u Hu. cbn in Hu. destruct Hu as [Hu|[Hu|[]]]; subst u; cbn; auto.
+  - cbn. repeat constructor.
+Qed.
+
+(** the model is valid — every clause of WF, the reset orders, and the ids of the document pairwise distinct (one import
+    element, one id) — and the current validator rejects it *)
+Lemma w_shared_import_current :
+  WF current_fixes ueq_c08 w_shared_import
+  /\ OrdersOK current_fixes w_shared_import
+  /\ NoDup (entity_ids (model_at w_shared_import 0))
+  /\ has_rule V_XML_ID_ATTRIBUTE (validate current_fixes ueq_c08 false w_shared_import) = true
+  /\ ~ no_shared_isrc_id (model_at w_shared_import 0).
+Proof.
+  split; [|split; [|split; [|split]]].
+  - apply (wf_fx_transfer all_fixed); [reflexivity|].
+    apply (validate_sound all_fixed ueq_c08 w_shared_import w_shared_import_repr w_shared_import_unresolved).
+    exact (proj1 w_shared_import_facts).
+  - vm_compute. reflexivity.
+  - vm_compute. repeat constructor. intros [].
+  - exact (proj2 w_shared_import_facts).
+  - unfold no_shared_isrc_id. vm_compute. intro H. inversion H; subst. apply H2. left. reflexivity.
+Qed.
+
+(** completeness of the current tree away from that shape *)
+Lemma validate_complete_current : forall ueq W, Repr (model_at W 0) -> unresolved_world W ->
+  no_shared_isrc_id (model_at W 0) ->
+  WF current_fixes ueq W -> IdsOK all_fixed W -> OrdersOK current_fixes W -> validate current_fixes ueq false W = [].
+Proof.
+  intros ueq W HR HU HS HW HI HO. unfold current_fixes. rewrite (validate_isrc_once_irrelevant true true true ueq false W HS).
+  apply (validate_complete all_fixed ueq W HR HU); [|exact HI | exact HO].
+  apply (wf_fx_transfer current_fixes); [reflexivity | exact HW].
+Qed.
